@@ -289,9 +289,9 @@ func init() {
 		Assumptions: []string{"a peer that sees EOF on its read side closes its write side (what sshd does); without that Client.Close waits by design",
 			"after an injected write failure the writer keeps failing (a dead transport)", "deviation bounds as reported"},
 		Jobs: func(tier string) []reg.Job {
-			b := 100
+			b, pb := 100, 100
 			if tier == "thorough" {
-				b = 900
+				b, pb = 600, 150
 			}
 			js := []reg.Job{
 				{Part: "C04/cuts", Build: "instr", Args: map[string]string{"group": "calls", "cache": "1"}, Shards: 16, BudgetS: b, Label: "calls: every cut point and failing write"},
@@ -304,8 +304,8 @@ func init() {
 			}
 			for _, p := range pols {
 				js = append(js,
-					reg.Job{Part: "C04/cuts", Build: "instr", Args: map[string]string{"group": "calls", "cache": "1", "policy": p}, Shards: 16, BudgetS: b, Label: "calls: every cut point and failing write [policy " + p + "]"},
-					reg.Job{Part: "C04/cuts", Build: "instr", Args: map[string]string{"group": "xfer", "cache": "1", "policy": p}, Shards: 16, BudgetS: b, Label: "transfers: every cut point and failing write [policy " + p + "]"})
+					reg.Job{Part: "C04/cuts", Build: "instr", Args: map[string]string{"group": "calls", "cache": "1", "policy": p}, Shards: 16, BudgetS: pb, Label: "calls: every cut point and failing write [policy " + p + "]"},
+					reg.Job{Part: "C04/cuts", Build: "instr", Args: map[string]string{"group": "xfer", "cache": "1", "policy": p}, Shards: 16, BudgetS: pb, Label: "transfers: every cut point and failing write [policy " + p + "]"})
 			}
 			return js
 		},
